@@ -84,12 +84,29 @@ pub fn generate(kind: &str, seed: u64, run: u64, thorough: bool) -> Scenario {
     let mut hr = Rng::stream(seed, run, "HASH");
     let mut fr = Rng::stream(seed, run, "FAULTS");
     let mut sr = Rng::stream(seed, run, "SWITCHES");
-    let (text, origin) = if kind == "corpus" {
+    let (text, origin) = if kind == "corpus" || (kind == "torn" && run % 2 == 0) {
         let c = gen::corpus();
         let f = &c[(run as usize) % c.len()];
         (f.text.clone(), f.name.clone())
     } else {
         (gen::rule_text(&gen::gen_rule(&mut rr, &knobs)), "generated".to_owned())
+    };
+    // rule files the store has damaged and that still load are accepted rules like any other
+    let (text, origin) = if kind == "torn" {
+        let mut sr2 = Rng::stream(seed, run, "STORAGE");
+        let mut bytes = text.clone().into_bytes();
+        let n = 1 + sr2.below(2);
+        let mut names = vec![];
+        for _ in 0..n {
+            let f = crate::props::c04::gen_storage_fault(&mut sr2, &String::from_utf8_lossy(&bytes), seed, run);
+            names.push(f.name());
+            if let Some(b) = crate::props::c04::apply(&bytes, &f) {
+                bytes = b;
+            }
+        }
+        (String::from_utf8_lossy(&bytes).into_owned(), format!("{} damaged by {}", origin, names.join("+")))
+    } else {
+        (text, origin)
     };
     let yaml: serde_yaml::Value = serde_yaml::from_str(&text).unwrap_or(serde_yaml::Value::Null);
     let mut docs = gen::docs_for(&mut dr, &yaml, &knobs, 6);
